@@ -472,6 +472,112 @@ static void run_dec(const char *args)
   free(buf);
 }
 
+
+/* ---------------------------------------------------------------- hist mode */
+/* hist <flags> <cutA> <hexA> <hexB>
+ * One decompress object, a SUSPENDING source manager.  Stream A is delivered only up to cutA
+ * bytes; whatever state the library is in when it suspends (or errors), the application gives
+ * up with jpeg_abort_decompress() and re-uses the object for the complete valid stream B.
+ * flags: 1 = jpeg_save_markers(COM + APP0..15, 0xFFFF), 2 = go on into jpeg_start_decompress /
+ * jpeg_read_scanlines on A, 4 = buffered-image mode on A, 8 = decode B's scan lines too.
+ * The result on B (header fields, saved markers, sample hash) must equal that of a fresh object. */
+struct ssrc { struct jpeg_source_mgr pub; };
+static void ss_init(j_decompress_ptr c) { (void)c; }
+static boolean ss_fill(j_decompress_ptr c) { (void)c; return FALSE; }      /* nothing more right now */
+static void ss_skip(j_decompress_ptr c, long n)
+{
+  if (n <= 0) return;
+  if ((size_t)n > c->src->bytes_in_buffer) { c->src->next_input_byte += c->src->bytes_in_buffer; c->src->bytes_in_buffer = 0; }
+  else { c->src->next_input_byte += n; c->src->bytes_in_buffer -= (size_t)n; }
+}
+static void ss_term(j_decompress_ptr c) { (void)c; }
+
+static void hist_setup(j_decompress_ptr c, int flags)
+{
+  int m;
+  if (flags & 1) { jpeg_save_markers(c, JPEG_COM, 0xFFFF); for (m = 0; m < 16; m++) jpeg_save_markers(c, JPEG_APP0 + m, 0xFFFF); }
+}
+
+/* decode B on object c (already created, source installed); returns a summary string */
+static void hist_B(j_decompress_ptr c, struct my_err *e, struct ssrc *src, const unsigned char *b, size_t blen, int flags, char *sum, size_t sumsz)
+{
+  unsigned char *volatile row = NULL; volatile unsigned long hh = 7; volatile long rows = 0; int rc; jpeg_saved_marker_ptr m; long nm = 0; unsigned long mh = 7;
+  if (setjmp(e->jb)) { snprintf(sum, sumsz, "err%d", e->code); free(row); jpeg_abort_decompress(c); return; }
+  src->pub.next_input_byte = b; src->pub.bytes_in_buffer = blen;
+  rc = jpeg_read_header(c, TRUE);
+  if (rc != JPEG_HEADER_OK) { snprintf(sum, sumsz, "hdr%d,left%lu", rc, (unsigned long)src->pub.bytes_in_buffer); jpeg_abort_decompress(c); return; }
+  for (m = c->marker_list; m && nm < 1000; m = m->next) { nm++; mh = mh * 31 + m->marker; mh = mh * 31 + m->original_length; mh = mh * 31 + fnv(m->data, m->data_length); }
+  if ((flags & 8) && c->data_precision <= 8 && (unsigned long long)c->image_width * c->image_height <= MAXPIXELS) {
+    if (jpeg_start_decompress(c)) {
+      size_t rb = (size_t)c->output_width * c->output_components;
+      row = (unsigned char *)malloc(rb ? rb : 1);
+      while (c->output_scanline < c->output_height) {
+        JSAMPROW r = (JSAMPROW)row; memset(row, 0x5A, rb);
+        if (jpeg_read_scanlines(c, &r, 1) == 0) break;
+        hh = hh * 31 + fnv(row, rb); rows++;
+      }
+    }
+  }
+  snprintf(sum, sumsz, "ok,%ux%u,nc%d,p%d,nm%ld,mh%lx,rows%ld,h%lx,w%ld", c->image_width, c->image_height, c->num_components, c->data_precision,
+           nm, mh, (long)rows, (unsigned long)hh, c->err->num_warnings);
+  free(row);
+  jpeg_abort_decompress(c);
+}
+
+static void run_hist(const char *args)
+{
+  int flags, cut, n = 0; size_t alen, blen; unsigned char *a, *b, *acut; const char *p;
+  struct jpeg_decompress_struct c, f; struct my_err e, ef; struct ssrc src, srcf; char sumB[256], sumF[256]; volatile int ra = -9;
+  double t0 = cpu_us();
+  if (sscanf(args, "%d %d %n", &flags, &cut, &n) < 2) { puts("hist ?"); return; }
+  p = args + n; a = unhex(p, &alen); while (*p && *p != ' ') p++; while (*p == ' ') p++; b = unhex(p, &blen);
+  if (cut < 0) cut = 0; if ((size_t)cut > alen) cut = (int)alen;
+  acut = (unsigned char *)malloc(cut ? cut : 1); memcpy(acut, a, cut); free(a);
+  memset(&c, 0, sizeof(c)); memset(&src, 0, sizeof(src));
+  c.err = jpeg_std_error(&e.pub); e.pub.error_exit = my_exit; e.pub.emit_message = my_emit; e.pub.output_message = my_output; e.code = 0; e.eofw = 0;
+  jpeg_create_decompress(&c);
+  c.mem->max_memory_to_use = 256L * 1024 * 1024;
+  hist_setup(&c, flags);
+  src.pub.init_source = ss_init; src.pub.fill_input_buffer = ss_fill; src.pub.skip_input_data = ss_skip;
+  src.pub.resync_to_restart = jpeg_resync_to_restart; src.pub.term_source = ss_term;
+  c.src = &src.pub;
+  /* ---- stream A, abandoned */
+  if (setjmp(e.jb)) { ra = -100 - e.code; }
+  else {
+    src.pub.next_input_byte = acut; src.pub.bytes_in_buffer = (size_t)cut;
+    ra = jpeg_read_header(&c, TRUE);
+    if (ra == JPEG_HEADER_OK && (flags & 2) && (unsigned long long)c.image_width * c.image_height <= MAXPIXELS) {
+      if (flags & 4) c.buffered_image = TRUE;
+      if (jpeg_start_decompress(&c)) {
+        ra = 10;
+        if (!(flags & 4) && c.data_precision <= 8) {
+          size_t rb = (size_t)c.output_width * c.output_components; unsigned char *row = (unsigned char *)malloc(rb ? rb : 1); JSAMPROW r = row; int k;
+          for (k = 0; k < 4 && c.output_scanline < c.output_height; k++) if (jpeg_read_scanlines(&c, &r, 1) == 0) { ra = 11; break; }
+          free(row);
+        } else if (flags & 4) { while (jpeg_consume_input(&c) != JPEG_SUSPENDED && !jpeg_input_complete(&c)) ; ra = 12; }
+      } else ra = 9;
+    }
+  }
+  jpeg_abort_decompress(&c);
+  free(acut);                      /* the application's buffer for A is gone too */
+  /* ---- stream B on the same object */
+  hist_B(&c, &e, &src, b, blen, flags, sumB, sizeof(sumB));
+  jpeg_destroy_decompress(&c);
+  /* ---- stream B on a fresh object */
+  memset(&f, 0, sizeof(f)); memset(&srcf, 0, sizeof(srcf));
+  f.err = jpeg_std_error(&ef.pub); ef.pub.error_exit = my_exit; ef.pub.emit_message = my_emit; ef.pub.output_message = my_output; ef.code = 0; ef.eofw = 0;
+  jpeg_create_decompress(&f);
+  f.mem->max_memory_to_use = 256L * 1024 * 1024;
+  hist_setup(&f, flags);
+  srcf.pub.init_source = ss_init; srcf.pub.fill_input_buffer = ss_fill; srcf.pub.skip_input_data = ss_skip;
+  srcf.pub.resync_to_restart = jpeg_resync_to_restart; srcf.pub.term_source = ss_term;
+  f.src = &srcf.pub;
+  hist_B(&f, &ef, &srcf, b, blen, flags, sumF, sizeof(sumF));
+  jpeg_destroy_decompress(&f);
+  printf("hist flags=%d cut=%d a=%d b=%s fresh=%s same=%d t=%.0f\n", flags, cut, (int)ra, sumB, sumF, strcmp(sumB, sumF) == 0, cpu_us() - t0);
+  free(b);
+}
+
 int main(void)
 {
   setvbuf(stdout, NULL, _IOLBF, 0);
@@ -482,6 +588,7 @@ int main(void)
     if (!strncmp(line, "hdr", 3)) run_hdr(line[3] ? line + 4 : "");
     else if (!strncmp(line, "mk ", 3)) run_mk(line + 3);
     else if (!strncmp(line, "dec ", 4)) run_dec(line + 4);
+    else if (!strncmp(line, "hist ", 5)) run_hist(line + 5);
     else puts("?");
   }
   return 0;
